@@ -57,7 +57,7 @@ def op_bit(c, o):
             w2 = p.sliding_window(int(c[3]))
             u2 = p.unpack()
             if [digits_of_word(x, b) for x in np.asarray(w2).tolist()] != out[1] or [dig_to_int(d) for d in a] != [int(x) for x in np.asarray(u2).tolist()]:
-                return ["windows", "not-repeatable"]
+                return ["not-repeatable", "a second call on the same object answered differently"]
         return out
     raise ValueError(op)
 
